@@ -5,7 +5,9 @@ Streams
             (`parseUseStmt`, `onlyMatch`, `renameSearch`, `getUsed . mkUse`) on random strings.
   graph   : generated module graphs (chains / diamonds of re-export, default public/private,
             access statements on imported names, every USE form, several USEs of one module,
-            every entity kind) rendered to Fortran files ->
+            every entity kind, every list of access keywords of a module variable - PUBLIC /
+            PRIVATE / PROTECTED alone and combined, in both orders, as attributes and/or as
+            statements, in default-public and default-private modules) rendered to Fortran files ->
             real `Project(settings)` + `project.correlate()` in-process ->
             (a) correspondence: every all_* / pub_* table of every scope equals the Lean
                 `Use.run` on the same statements, run in the order FORD really correlated,
@@ -42,7 +44,41 @@ F_RENAME = "C06-rename-without-only"
 F_EMPTY = "C06-empty-only-imports-all"
 F_PRIV = "C06-private-imported-reexported"
 F_TWICE = "C06-only-remote-listed-twice"
-ALL_FEATURES = (F_RENAME, F_EMPTY, F_PRIV, F_TWICE)
+F_PROT = "C06-protected-private-exported"
+ALL_FEATURES = (F_RENAME, F_EMPTY, F_PRIV, F_TWICE, F_PROT)
+
+
+def decl_accs(d):
+    """access keywords of declaration `d` as FORD meets them: [[letter, inline], ...] with the
+    keywords of the attribute list (left to right) before those given by access / PROTECTED
+    statements (source order).  Letters: u public, r private, t protected.
+    (`acc`: the single keyword of graphs stored by earlier versions of this harness.)"""
+    if "accs" in d:
+        return d["accs"]
+    return [[d["acc"], bool(d.get("acc_inline"))]] if d.get("acc") else []
+
+
+def acc_letters(d):
+    return "".join(a for a, _ in decl_accs(d))
+
+
+def std_accessible(d, def_pub):
+    """F2018 8.5.2: the PUBLIC / PRIVATE attribute of the entity (declaration or access statement,
+    in any order), else the default accessibility of the module.  PROTECTED (8.5.15) is not an
+    accessibility: it only restricts where the entity may be defined."""
+    letters = acc_letters(d)
+    if "u" in letters:
+        return True
+    if "r" in letters:
+        return False
+    return def_pub
+
+
+def protected_over_private(d, def_pub):
+    """class of C06-protected-private-exported: PROTECTED is the last access keyword FORD meets for
+    an entity that is private"""
+    letters = acc_letters(d)
+    return letters.endswith("t") and not std_accessible(d, def_pub)
 
 
 # --------------------------------------------------------------------------
@@ -98,8 +134,8 @@ def spec_tables(graph, sw=frozenset()):
         for d in s["decls"]:
             ent = (n, d["name"])
             add(sees[n][d["kind"]], d["name"], ent)
-            acc = d["acc"] or ("u" if s["def_pub"] else "r")
-            if s["is_mod"] and acc != "r":
+            accessible = std_accessible(d, s["def_pub"]) or (F_PROT in sw and protected_over_private(d, s["def_pub"]))
+            if s["is_mod"] and accessible:
                 add(exps[n][d["kind"]], d["name"], ent)
     changed = True
     while changed:
@@ -171,6 +207,8 @@ def features(graph):
                     f.add(F_TWICE)
         if s["is_mod"] and s["def_pub"] and s["priv_names"]:
             f.add(F_PRIV)
+        if s["is_mod"] and any(protected_over_private(d, s["def_pub"]) for d in s["decls"]):
+            f.add(F_PROT)
     return f
 
 
@@ -293,18 +331,8 @@ def gen_graph(rng, idx, hist):
                 # input normal form: access statements about declared names live in the declaration
                 s["pub_names"] = [x for x in s["pub_names"] if x != dn]
                 s["priv_names"] = [x for x in s["priv_names"] if x != dn]
-            acc = None
-            r = rng.random()
-            if is_mod:
-                if r < 0.25:
-                    acc = "r"
-                elif r < 0.5:
-                    acc = "u"
-                elif r < 0.56 and kind == K_VAR and def_pub:
-                    acc = "t"
-            d = {"name": dn, "kind": kind, "acc": acc,
-                 "form": rng.choice(["sub", "fun", "gen"]) if kind == K_PROC else "",
-                 "acc_inline": rng.random() < 0.5, "ref": None}
+            d = {"name": dn, "kind": kind, "accs": gen_accs(rng, kind, def_pub, defects, hist) if is_mod else [],
+                 "form": rng.choice(["sub", "fun", "gen"]) if kind == K_PROC else "", "ref": None}
             s["decls"].append(d)
         # ---- references through imported names (types of variables, extends, calls)
         tnames = sorted(spec[name][K_TYPE]["all"])
@@ -338,9 +366,8 @@ def gen_graph(rng, idx, hist):
             if cands:
                 j, k, r = rng.choice(cands)
                 # (always private: a public namesake would only make later modules ambiguous)
-                s["decls"].append({"name": r, "kind": k, "acc": "r",
-                                   "form": rng.choice(["sub", "fun"]) if k == K_PROC else "",
-                                   "acc_inline": rng.random() < 0.5, "ref": None})
+                s["decls"].append({"name": r, "kind": k, "accs": [["r", k in (K_VAR, K_TYPE) and rng.random() < 0.5]],
+                                   "form": rng.choice(["sub", "fun"]) if k == K_PROC else "", "ref": None})
                 twin = (j, k, r)
                 hist["twin-decl:" + KIND_LETTER[k]] = hist.get("twin-decl:" + KIND_LETTER[k], 0) + 1
         scopes.append(s)
@@ -355,6 +382,41 @@ def gen_graph(rng, idx, hist):
 
 
 SWITCH_SETS = [frozenset(c) for r in range(len(ALL_FEATURES) + 1) for c in itertools.combinations(ALL_FEATURES, r)]
+
+
+def gen_accs(rng, kind, def_pub, defects, hist):
+    """access keywords of a module entity, in the order FORD meets them, each either in the
+    attribute list of the declaration (variables and types) or in a statement of its own.
+    Variables also get PROTECTED, alone and together with PUBLIC / PRIVATE in both orders and in
+    both kinds of module (accessibility is decided by PUBLIC / PRIVATE / the default, never by
+    PROTECTED).  The two forms in which the unchanged code exports a private variable (PROTECTED
+    last on a private entity, finding C06-protected-private-exported) only in `defects` projects."""
+    r = rng.random()
+    if kind != K_VAR:
+        letters = "r" if r < 0.25 else "u" if r < 0.5 else ""
+    elif r < 0.20:
+        letters = "r"
+    elif r < 0.40:
+        letters = "u"
+    elif r < 0.47:
+        letters = "t" if def_pub or (defects and rng.random() < 0.5) else "ut"
+    elif r < 0.55:
+        letters = rng.choice(["ut", "ut", "tu"])
+    elif r < 0.58:
+        letters = "rt" if defects and rng.random() < 0.5 else "tr"
+    else:
+        letters = ""
+    can_inline = kind in (K_VAR, K_TYPE)
+    if not can_inline:
+        ninl = 0
+    elif len(letters) == 2:
+        ninl = rng.choice([0, 1, 2, 2])
+    else:
+        ninl = 1 if rng.random() < 0.5 else 0
+    if "t" in letters:
+        key = "access:" + letters + ("/default-public" if def_pub else "/default-private")
+        hist[key] = hist.get(key, 0) + 1
+    return [[a, i < ninl] for i, a in enumerate(letters)]
 
 
 def own_clash(spec, name):
@@ -394,7 +456,7 @@ def gen_nested(rng, i, s, scopes, nested, exported, defects, hist, twin=None):
               "pub_names": [], "priv_names": [], "calls": [], "level": lv + 1}
         nested.append(ns)
         (s if lv == 0 else nested[-2])["decls"].append(
-            {"name": nm, "kind": K_PROC, "acc": None, "form": "sub", "acc_inline": False, "ref": None, "inner": nm})
+            {"name": nm, "kind": K_PROC, "accs": [], "form": "sub", "ref": None, "inner": nm})
         cands = [j for j in range(i)]
         fresh = [j for j in cands if f"m{j}" not in used_at_module_level]
         deepest = lv == levels - 1
@@ -443,8 +505,7 @@ def gen_nested(rng, i, s, scopes, nested, exported, defects, hist, twin=None):
         pn_d = [n for n in pn if differs(K_PROC, n)]
         for q in range(rng.randint(0, 2) if deepest else rng.randint(0, 1)):
             if tn:
-                ns["decls"].append({"name": f"z{i}{ns['level']}{q}", "kind": K_VAR, "acc": None, "form": "",
-                                    "acc_inline": False,
+                ns["decls"].append({"name": f"z{i}{ns['level']}{q}", "kind": K_VAR, "accs": [], "form": "",
                                     "ref": rng.choice(tn_d) if tn_d and rng.random() < 0.6 else rng.choice(tn)})
         for _ in range(rng.randint(0, 2) if deepest else rng.randint(0, 1)):
             if pn:
@@ -587,15 +648,16 @@ def render_scope(rng, s, nested=()):
     for n in s["priv_names"]:
         stmts.append(f"  private :: {rnd_case(rng, n)}")
     body, contains = [], []
-    for d in s["decls"]:
+    own = []  # (declaration index, position among its statements, text): relative order is kept
+    for di, d in enumerate(s["decls"]):
         n = d["name"]
-        acc = ACC_WORD.get(d["acc"])
         inline = ""
-        if acc:
-            if d["acc_inline"] and d["kind"] in (K_VAR, K_TYPE):
-                inline = f", {acc}"
+        for a, inl in decl_accs(d):
+            word = rnd_case(rng, ACC_WORD[a])
+            if inl and d["kind"] in (K_VAR, K_TYPE) and not any(o[0] == di for o in own):
+                inline += f",{sp(rng)}{word}"
             else:
-                stmts.append(f"  {acc} :: {n}")
+                own.append((di, sum(1 for o in own if o[0] == di), f"  {word} :: {rnd_case(rng, n)}"))
         if d["kind"] == K_VAR:
             ty = f"type({rnd_case(rng, d['ref'])})" if d["ref"] else "integer"
             body.append(f"  {ty}{inline} :: {n}")
@@ -613,8 +675,15 @@ def render_scope(rng, s, nested=()):
         else:  # generic interface with an external-body specific
             body += [f"  interface {n}", f"    subroutine {n}_impl(x)", "      integer :: x", f"    end subroutine {n}_impl",
                      "  end interface"]
-    rng.shuffle(stmts)
-    L += stmts + body
+    # access statements in random order, except that the statements about one entity keep theirs
+    # (FORD applies them in source order and the keyword met last stays in its `permission`)
+    mixed = [(None, 0, t) for t in stmts] + own
+    rng.shuffle(mixed)
+    for di in {o[0] for o in own}:
+        pos = [i for i, o in enumerate(mixed) if o[0] == di]
+        for i, o in zip(pos, sorted((mixed[i] for i in pos), key=lambda o: o[1])):
+            mixed[i] = o
+    L += [o[2] for o in mixed] + body
     for c in s["calls"]:
         L.append(f"  call {rnd_case(rng, c)}()")
     if contains:
@@ -630,7 +699,7 @@ def model_fields(s):
     # kinds keep source order.  Only observable when an only-list maps two remote names to one local.
     rank = {"fun": 0, "sub": 1, "gen": 2}
     for d in sorted(s["decls"], key=lambda d: rank.get(d["form"], 0) if d["kind"] == K_PROC else 0):
-        decls.append(f"{d['name']}:{d['kind']}:{d['acc'] or '-'}")
+        decls.append(f"{d['name']}:{d['kind']}:{acc_letters(d) or '-'}")
     return [s["name"], flags, " ".join(s["pub_names"]), " ".join(s["priv_names"]), " ".join(decls),
             str(len(s["uses"]))] + [u["stmt"] for u in s["uses"]]
 
@@ -1143,6 +1212,8 @@ def run(tier: str, seed: int, replay: str | None = None) -> int:
         "CPython re is on the implementation side only; the scanners are its deterministic reading, validated on the micro stream "
         "and pinned to the regex sources by the generated table",
         "projects in which one name denotes two entities in a scope are outside the property's domain (oracle skipped, correspondence kept)",
+        "the default-accessibility statement (bare PRIVATE / PUBLIC) is always rendered before the declarations of the module; "
+        "PROTECTED is given to variables only; an entity is never given both PUBLIC and PRIVATE (hypothesis LegalAccess)",
     ]
     return rep.finish(lean)
 
